@@ -1061,6 +1061,11 @@ func (hash *SexpHash) SexpString(ps *PrintState) string {
 }
 
 func (r *SexpHash) Type() *RegisteredType {
+	// an instance of a declared struct keeps the declaration it was made
+	// under; the registry only knows the latest declaration of that name.
+	if f := r.GoStructFactory; f != nil && f.UserStructDefn != nil && f.RegisteredName == r.TypeName {
+		return f
+	}
 	return GoStructRegistry.Registry[r.TypeName]
 }
 
